@@ -502,6 +502,340 @@ macro_rules! te_curve_x {
     };
 }
 // ---- BEGIN generated by props/C09/mkext.py (do not edit by hand) ----
+pub struct CQ2f0;
+impl Fp2Config for CQ2f0 {
+    type Fp = F8;
+    const NONRESIDUE: F8 = MontFp!("-1");
+    const FROBENIUS_COEFF_FP2_C1: &'static [F8] = &[MontFp!("1"), MontFp!("-1")];
+}
+pub type Q2f0 = Fp2<CQ2f0>;
+#[derive(Clone, Copy)]
+pub struct CQ6f0;
+impl Fp6Config for CQ6f0 {
+    type Fp2Config = CQ2f0;
+    const NONRESIDUE: Q2f0 = Q2f0::new(MontFp!("2"), MontFp!("1"));
+    const FROBENIUS_COEFF_FP6_C1: &'static [Q2f0] = &[Q2f0::new(MontFp!("1"), MontFp!("0")), Q2f0::new(MontFp!("61"), MontFp!("102")), Q2f0::new(MontFp!("125"), MontFp!("213")), Q2f0::new(MontFp!("235"), MontFp!("8")), Q2f0::new(MontFp!("125"), MontFp!("38")), Q2f0::new(MontFp!("206"), MontFp!("141"))];
+    const FROBENIUS_COEFF_FP6_C2: &'static [Q2f0] = &[Q2f0::new(MontFp!("1"), MontFp!("0")), Q2f0::new(MontFp!("94"), MontFp!("145")), Q2f0::new(MontFp!("125"), MontFp!("38")), Q2f0::new(MontFp!("192"), MontFp!("246")), Q2f0::new(MontFp!("125"), MontFp!("213")), Q2f0::new(MontFp!("216"), MontFp!("111"))];
+}
+pub type Q6f0 = Fp6<CQ6f0>;
+pub struct CQ2f1;
+impl Fp2Config for CQ2f1 {
+    type Fp = F15;
+    const NONRESIDUE: F15 = MontFp!("2");
+    const FROBENIUS_COEFF_FP2_C1: &'static [F15] = &[MontFp!("1"), MontFp!("-1")];
+}
+pub type Q2f1 = Fp2<CQ2f1>;
+pub struct CQ2f2;
+impl Fp2Config for CQ2f2 {
+    type Fp = F16;
+    const NONRESIDUE: F16 = MontFp!("17");
+    const FROBENIUS_COEFF_FP2_C1: &'static [F16] = &[MontFp!("1"), MontFp!("-1")];
+}
+pub type Q2f2 = Fp2<CQ2f2>;
+pub struct CQ3f2;
+impl Fp3Config for CQ3f2 {
+    type Fp = F16;
+    const NONRESIDUE: F16 = MontFp!("17");
+    const TWO_ADICITY: u32 = 4;
+    const TRACE_MINUS_ONE_DIV_TWO: &'static [u64] = &[0x7fe98151796];
+    const QUADRATIC_NONRESIDUE_TO_T: Fp3<CQ3f2> = Fp3::<CQ3f2>::new(MontFp!("61640"), MontFp!("0"), MontFp!("0"));
+    const FROBENIUS_COEFF_FP3_C1: &'static [F16] = &[MontFp!("1"), MontFp!("16673"), MontFp!("48847")];
+    const FROBENIUS_COEFF_FP3_C2: &'static [F16] = &[MontFp!("1"), MontFp!("48847"), MontFp!("16673")];
+}
+pub type Q3f2 = Fp3<CQ3f2>;
+pub struct CQ4f2;
+impl Fp4Config for CQ4f2 {
+    type Fp2Config = CQ2f2;
+    const NONRESIDUE: Q2f2 = Q2f2::new(MontFp!("0"), MontFp!("1"));
+    const FROBENIUS_COEFF_FP4_C1: &'static [F16] = &[MontFp!("1"), MontFp!("41224"), MontFp!("65520"), MontFp!("24297")];
+}
+pub type Q4f2 = Fp4<CQ4f2>;
+#[derive(Clone, Copy)]
+pub struct CQ6f2;
+impl Fp6Config for CQ6f2 {
+    type Fp2Config = CQ2f2;
+    const NONRESIDUE: Q2f2 = Q2f2::new(MontFp!("0"), MontFp!("1"));
+    const FROBENIUS_COEFF_FP6_C1: &'static [Q2f2] = &[Q2f2::new(MontFp!("1"), MontFp!("0")), Q2f2::new(MontFp!("16674"), MontFp!("0")), Q2f2::new(MontFp!("16673"), MontFp!("0")), Q2f2::new(MontFp!("65520"), MontFp!("0")), Q2f2::new(MontFp!("48847"), MontFp!("0")), Q2f2::new(MontFp!("48848"), MontFp!("0"))];
+    const FROBENIUS_COEFF_FP6_C2: &'static [Q2f2] = &[Q2f2::new(MontFp!("1"), MontFp!("0")), Q2f2::new(MontFp!("16673"), MontFp!("0")), Q2f2::new(MontFp!("48847"), MontFp!("0")), Q2f2::new(MontFp!("1"), MontFp!("0")), Q2f2::new(MontFp!("16673"), MontFp!("0")), Q2f2::new(MontFp!("48847"), MontFp!("0"))];
+}
+pub type Q6f2 = Fp6<CQ6f2>;
+pub struct CQ32f2;
+impl Fp6bConfig for CQ32f2 {
+    type Fp3Config = CQ3f2;
+    const NONRESIDUE: Q3f2 = Q3f2::new(MontFp!("0"), MontFp!("1"), MontFp!("0"));
+    const FROBENIUS_COEFF_FP6_C1: &'static [F16] = &[MontFp!("1"), MontFp!("16674"), MontFp!("16673"), MontFp!("65520"), MontFp!("48847"), MontFp!("48848")];
+}
+pub type Q32f2 = Fp6b<CQ32f2>;
+pub struct CQ2f5;
+impl Fp2Config for CQ2f5 {
+    type Fp = F63;
+    const NONRESIDUE: F63 = MontFp!("-1");
+    const FROBENIUS_COEFF_FP2_C1: &'static [F63] = &[MontFp!("1"), MontFp!("-1")];
+}
+pub type Q2f5 = Fp2<CQ2f5>;
+pub struct CQ3f5;
+impl Fp3Config for CQ3f5 {
+    type Fp = F63;
+    const NONRESIDUE: F63 = MontFp!("3");
+    const TWO_ADICITY: u32 = 1;
+    const TRACE_MINUS_ONE_DIV_TWO: &'static [u64] = &[0x5ffffffffffff0bd, 0x50000000000000ea, 0x7fffffffffffffb];
+    const QUADRATIC_NONRESIDUE_TO_T: Fp3<CQ3f5> = Fp3::<CQ3f5>::new(MontFp!("9223372036854775782"), MontFp!("0"), MontFp!("0"));
+    const FROBENIUS_COEFF_FP3_C1: &'static [F63] = &[MontFp!("1"), MontFp!("8755078512587387851"), MontFp!("468293524267387931")];
+    const FROBENIUS_COEFF_FP3_C2: &'static [F63] = &[MontFp!("1"), MontFp!("468293524267387931"), MontFp!("8755078512587387851")];
+}
+pub type Q3f5 = Fp3<CQ3f5>;
+pub struct CQ2f6;
+impl Fp2Config for CQ2f6 {
+    type Fp = F64;
+    const NONRESIDUE: F64 = MontFp!("2");
+    const FROBENIUS_COEFF_FP2_C1: &'static [F64] = &[MontFp!("1"), MontFp!("-1")];
+}
+pub type Q2f6 = Fp2<CQ2f6>;
+pub struct CQ4f6;
+impl Fp4Config for CQ4f6 {
+    type Fp2Config = CQ2f6;
+    const NONRESIDUE: Q2f6 = Q2f6::new(MontFp!("0"), MontFp!("1"));
+    const FROBENIUS_COEFF_FP4_C1: &'static [F64] = &[MontFp!("1"), MontFp!("2296021864060584341"), MontFp!("18446744073709551556"), MontFp!("16150722209648967216")];
+}
+pub type Q4f6 = Fp4<CQ4f6>;
+#[derive(Clone, Copy)]
+pub struct CQ6f6;
+impl Fp6Config for CQ6f6 {
+    type Fp2Config = CQ2f6;
+    const NONRESIDUE: Q2f6 = Q2f6::new(MontFp!("3"), MontFp!("1"));
+    const FROBENIUS_COEFF_FP6_C1: &'static [Q2f6] = &[Q2f6::new(MontFp!("1"), MontFp!("0")), Q2f6::new(MontFp!("14572795668663777349"), MontFp!("11281842183482911252")), Q2f6::new(MontFp!("9223372036854775778"), MontFp!("4817326349724003083")), Q2f6::new(MontFp!("9068024800713694517"), MontFp!("3126239757665285680")), Q2f6::new(MontFp!("9223372036854775778"), MontFp!("13629417723985548474")), Q2f6::new(MontFp!("13252667678041631248"), MontFp!("4038662132561354625"))];
+    const FROBENIUS_COEFF_FP6_C2: &'static [Q2f6] = &[Q2f6::new(MontFp!("1"), MontFp!("0")), Q2f6::new(MontFp!("11969781182274619192"), MontFp!("16732009246408191431")), Q2f6::new(MontFp!("9223372036854775778"), MontFp!("13629417723985548474")), Q2f6::new(MontFp!("7345062193897001336"), MontFp!("17794299981349287475")), Q2f6::new(MontFp!("9223372036854775778"), MontFp!("4817326349724003083")), Q2f6::new(MontFp!("17578644771247482586"), MontFp!("2367178919661624208"))];
+}
+pub type Q6f6 = Fp6<CQ6f6>;
+pub struct CQ2f7;
+impl Fp2Config for CQ2f7 {
+    type Fp = F127;
+    const NONRESIDUE: F127 = MontFp!("-1");
+    const FROBENIUS_COEFF_FP2_C1: &'static [F127] = &[MontFp!("1"), MontFp!("-1")];
+}
+pub type Q2f7 = Fp2<CQ2f7>;
+pub struct CQ3f7;
+impl Fp3Config for CQ3f7 {
+    type Fp = F127;
+    const NONRESIDUE: F127 = MontFp!("5");
+    const TWO_ADICITY: u32 = 1;
+    const TRACE_MINUS_ONE_DIV_TWO: &'static [u64] = &[0xffffffffffffffff, 0x5fffffffffffffff, 0x0, 0xd000000000000000, 0xffffffffffffffff, 0x7ffffffffffffff];
+    const QUADRATIC_NONRESIDUE_TO_T: Fp3<CQ3f7> = Fp3::<CQ3f7>::new(MontFp!("170141183460469231731687303715884105726"), MontFp!("0"), MontFp!("0"));
+    const FROBENIUS_COEFF_FP3_C1: &'static [F127] = &[MontFp!("1"), MontFp!("45732286665397639494243842614078445557"), MontFp!("124408896795071592237443461101805660169")];
+    const FROBENIUS_COEFF_FP3_C2: &'static [F127] = &[MontFp!("1"), MontFp!("124408896795071592237443461101805660169"), MontFp!("45732286665397639494243842614078445557")];
+}
+pub type Q3f7 = Fp3<CQ3f7>;
+pub struct CQ2f8;
+impl Fp2Config for CQ2f8 {
+    type Fp = F128;
+    const NONRESIDUE: F128 = MontFp!("5");
+    const FROBENIUS_COEFF_FP2_C1: &'static [F128] = &[MontFp!("1"), MontFp!("-1")];
+}
+pub type Q2f8 = Fp2<CQ2f8>;
+pub struct CQ3f8;
+impl Fp3Config for CQ3f8 {
+    type Fp = F128;
+    const NONRESIDUE: F128 = MontFp!("5");
+    const TWO_ADICITY: u32 = 5;
+    const TRACE_MINUS_ONE_DIV_TWO: &'static [u64] = &[0xffffffffffff0aa8, 0xbffffffffffffff, 0x4a1, 0x8c00000000000000, 0xfffffffffffffff8, 0x3ffffffffffffff];
+    const QUADRATIC_NONRESIDUE_TO_T: Fp3<CQ3f8> = Fp3::<CQ3f8>::new(MontFp!("130276414335768855879836975821154048968"), MontFp!("0"), MontFp!("0"));
+    const FROBENIUS_COEFF_FP3_C1: &'static [F128] = &[MontFp!("1"), MontFp!("242472609493756488329140963943819063794"), MontFp!("97809757427181975134233643487949147502")];
+    const FROBENIUS_COEFF_FP3_C2: &'static [F128] = &[MontFp!("1"), MontFp!("97809757427181975134233643487949147502"), MontFp!("242472609493756488329140963943819063794")];
+}
+pub type Q3f8 = Fp3<CQ3f8>;
+pub struct CQ4f8;
+impl Fp4Config for CQ4f8 {
+    type Fp2Config = CQ2f8;
+    const NONRESIDUE: Q2f8 = Q2f8::new(MontFp!("0"), MontFp!("1"));
+    const FROBENIUS_COEFF_FP4_C1: &'static [F128] = &[MontFp!("1"), MontFp!("223634181723936656043527912098592160685"), MontFp!("340282366920938463463374607431768211296"), MontFp!("116648185197001807419846695333176050612")];
+}
+pub type Q4f8 = Fp4<CQ4f8>;
+pub struct CQ32f8;
+impl Fp6bConfig for CQ32f8 {
+    type Fp3Config = CQ3f8;
+    const NONRESIDUE: Q3f8 = Q3f8::new(MontFp!("0"), MontFp!("1"), MontFp!("0"));
+    const FROBENIUS_COEFF_FP6_C1: &'static [F128] = &[MontFp!("1"), MontFp!("242472609493756488329140963943819063795"), MontFp!("242472609493756488329140963943819063794"), MontFp!("340282366920938463463374607431768211296"), MontFp!("97809757427181975134233643487949147502"), MontFp!("97809757427181975134233643487949147503")];
+}
+pub type Q32f8 = Fp6b<CQ32f8>;
+pub struct CQ2f9;
+impl Fp2Config for CQ2f9 {
+    type Fp = ark_ed25519::Fq;
+    const NONRESIDUE: ark_ed25519::Fq = MontFp!("2");
+    const FROBENIUS_COEFF_FP2_C1: &'static [ark_ed25519::Fq] = &[MontFp!("1"), MontFp!("-1")];
+}
+pub type Q2f9 = Fp2<CQ2f9>;
+pub struct CQ3f9;
+impl Fp3Config for CQ3f9 {
+    type Fp = ark_ed25519::Fq;
+    const NONRESIDUE: ark_ed25519::Fq = MontFp!("2");
+    const TWO_ADICITY: u32 = 2;
+    const TRACE_MINUS_ONE_DIV_TWO: &'static [u64] = &[0xfffffffffffffca6, 0xffffffffffffffff, 0xffffffffffffffff, 0xafffffffffffffff, 0x43, 0x0, 0x0, 0x3800000000000000, 0xfffffffffffffffe, 0xffffffffffffffff, 0xffffffffffffffff, 0x3ffffffffffffff];
+    const QUADRATIC_NONRESIDUE_TO_T: Fp3<CQ3f9> = Fp3::<CQ3f9>::new(MontFp!("19681161376707505956807079304988542015446066515923890162744021073123829784752"), MontFp!("0"), MontFp!("0"));
+    const FROBENIUS_COEFF_FP3_C1: &'static [ark_ed25519::Fq] = &[MontFp!("1"), MontFp!("25380276437079137597092236364571181010632177832931468165172742469126098314552"), MontFp!("32515768181578960114693256139772772916002814499888813854556049534830466505396")];
+    const FROBENIUS_COEFF_FP3_C2: &'static [ark_ed25519::Fq] = &[MontFp!("1"), MontFp!("32515768181578960114693256139772772916002814499888813854556049534830466505396"), MontFp!("25380276437079137597092236364571181010632177832931468165172742469126098314552")];
+}
+pub type Q3f9 = Fp3<CQ3f9>;
+pub struct CQ4f9;
+impl Fp4Config for CQ4f9 {
+    type Fp2Config = CQ2f9;
+    const NONRESIDUE: Q2f9 = Q2f9::new(MontFp!("0"), MontFp!("1"));
+    const FROBENIUS_COEFF_FP4_C1: &'static [ark_ed25519::Fq] = &[MontFp!("1"), MontFp!("19681161376707505956807079304988542015446066515923890162744021073123829784752"), MontFp!("57896044618658097711785492504343953926634992332820282019728792003956564819948"), MontFp!("38214883241950591754978413199355411911188925816896391856984770930832735035197")];
+}
+pub type Q4f9 = Fp4<CQ4f9>;
+pub struct CQ2f10;
+impl Fp2Config for CQ2f10 {
+    type Fp = ark_secp256k1::Fq;
+    const NONRESIDUE: ark_secp256k1::Fq = MontFp!("-1");
+    const FROBENIUS_COEFF_FP2_C1: &'static [ark_secp256k1::Fq] = &[MontFp!("1"), MontFp!("-1")];
+}
+pub type Q2f10 = Fp2<CQ2f10>;
+pub struct CQ3f10;
+impl Fp3Config for CQ3f10 {
+    type Fp = ark_secp256k1::Fq;
+    const NONRESIDUE: ark_secp256k1::Fq = MontFp!("3");
+    const TWO_ADICITY: u32 = 1;
+    const TRACE_MINUS_ONE_DIV_TWO: &'static [u64] = &[0x3ff51387321a8263, 0xffffffffbffffd23, 0xffffffffffffffff, 0xbfffffffffffffff, 0xc00005b9800aec78, 0x0, 0x0, 0x4000000000000000, 0xffffffff3ffffd23, 0xffffffffffffffff, 0xffffffffffffffff, 0x3fffffffffffffff];
+    const QUADRATIC_NONRESIDUE_TO_T: Fp3<CQ3f10> = Fp3::<CQ3f10>::new(MontFp!("115792089237316195423570985008687907853269984665640564039457584007908834671662"), MontFp!("0"), MontFp!("0"));
+    const FROBENIUS_COEFF_FP3_C1: &'static [ark_secp256k1::Fq] = &[MontFp!("1"), MontFp!("60197513588986302554485582024885075108884032450952339817679072026166228089408"), MontFp!("55594575648329892869085402983802832744385952214688224221778511981742606582254")];
+    const FROBENIUS_COEFF_FP3_C2: &'static [ark_secp256k1::Fq] = &[MontFp!("1"), MontFp!("55594575648329892869085402983802832744385952214688224221778511981742606582254"), MontFp!("60197513588986302554485582024885075108884032450952339817679072026166228089408")];
+}
+pub type Q3f10 = Fp3<CQ3f10>;
+#[derive(Clone, Copy)]
+pub struct CQ6f10;
+impl Fp6Config for CQ6f10 {
+    type Fp2Config = CQ2f10;
+    const NONRESIDUE: Q2f10 = Q2f10::new(MontFp!("1"), MontFp!("1"));
+    const FROBENIUS_COEFF_FP6_C1: &'static [Q2f10] = &[Q2f10::new(MontFp!("1"), MontFp!("0")), Q2f10::new(MontFp!("0"), MontFp!("60197513588986302554485582024885075108884032450952339817679072026166228089408")), Q2f10::new(MontFp!("55594575648329892869085402983802832744385952214688224221778511981742606582254"), MontFp!("0")), Q2f10::new(MontFp!("0"), MontFp!("1")), Q2f10::new(MontFp!("60197513588986302554485582024885075108884032450952339817679072026166228089408"), MontFp!("0")), Q2f10::new(MontFp!("0"), MontFp!("55594575648329892869085402983802832744385952214688224221778511981742606582254"))];
+    const FROBENIUS_COEFF_FP6_C2: &'static [Q2f10] = &[Q2f10::new(MontFp!("1"), MontFp!("0")), Q2f10::new(MontFp!("60197513588986302554485582024885075108884032450952339817679072026166228089409"), MontFp!("0")), Q2f10::new(MontFp!("60197513588986302554485582024885075108884032450952339817679072026166228089408"), MontFp!("0")), Q2f10::new(MontFp!("115792089237316195423570985008687907853269984665640564039457584007908834671662"), MontFp!("0")), Q2f10::new(MontFp!("55594575648329892869085402983802832744385952214688224221778511981742606582254"), MontFp!("0")), Q2f10::new(MontFp!("55594575648329892869085402983802832744385952214688224221778511981742606582255"), MontFp!("0"))];
+}
+pub type Q6f10 = Fp6<CQ6f10>;
+pub struct CQ2f15;
+impl Fp2Config for CQ2f15 {
+    type Fp = ark_pallas::Fq;
+    const NONRESIDUE: ark_pallas::Fq = MontFp!("5");
+    const FROBENIUS_COEFF_FP2_C1: &'static [ark_pallas::Fq] = &[MontFp!("1"), MontFp!("-1")];
+}
+pub type Q2f15 = Fp2<CQ2f15>;
+pub struct CQ2f16;
+impl Fp2Config for CQ2f16 {
+    type Fp = ark_ed_on_bls12_381::Fq;
+    const NONRESIDUE: ark_ed_on_bls12_381::Fq = MontFp!("5");
+    const FROBENIUS_COEFF_FP2_C1: &'static [ark_ed_on_bls12_381::Fq] = &[MontFp!("1"), MontFp!("-1")];
+}
+pub type Q2f16 = Fp2<CQ2f16>;
+pub struct CQ2f17;
+impl Fp2Config for CQ2f17 {
+    type Fp = F192;
+    const NONRESIDUE: F192 = MontFp!("-1");
+    const FROBENIUS_COEFF_FP2_C1: &'static [F192] = &[MontFp!("1"), MontFp!("-1")];
+}
+pub type Q2f17 = Fp2<CQ2f17>;
+#[derive(Clone, Copy)]
+pub struct CQ6f17;
+impl Fp6Config for CQ6f17 {
+    type Fp2Config = CQ2f17;
+    const NONRESIDUE: Q2f17 = Q2f17::new(MontFp!("2"), MontFp!("1"));
+    const FROBENIUS_COEFF_FP6_C1: &'static [Q2f17] = &[Q2f17::new(MontFp!("1"), MontFp!("0")), Q2f17::new(MontFp!("3260182393688131836202038755124880483605510970407121149090"), MontFp!("4933377789865787240513951942080473331659580888242670471183")), Q2f17::new(MontFp!("3138550867693340381917894711603833208041954350195162480639"), MontFp!("1163148613673840140040163735776822270977968611581881917951")), Q2f17::new(MontFp!("1241251096146291160022215314747636457992410638098872522914"), MontFp!("5656476187313535183824681765833848187087703381340888699822")), Q2f17::new(MontFp!("3138550867693340381917894711603833208041954350195162480639"), MontFp!("5113953121712840623795625687430844145105940088808443043328")), Q2f17::new(MontFp!("1775668245552257767611535353335149474485987091884331289275"), MontFp!("1964349493594039103332945138501011313420533131197090751553"))];
+    const FROBENIUS_COEFF_FP6_C2: &'static [Q2f17] = &[Q2f17::new(MontFp!("1"), MontFp!("0")), Q2f17::new(MontFp!("2949227085134731896599811191228340934353838840016188687141"), MontFp!("4256831923747819490716834161436432223568976357761867917919")), Q2f17::new(MontFp!("3138550867693340381917894711603833208041954350195162480639"), MontFp!("5113953121712840623795625687430844145105940088808443043328")), Q2f17::new(MontFp!("3971787700824637589963749352721022715038304122764641334070"), MontFp!("5166119291211617819774649901718080406755442336964353156705")), Q2f17::new(MontFp!("3138550867693340381917894711603833208041954350195162480639"), MontFp!("1163148613673840140040163735776822270977968611581881917951")), Q2f17::new(MontFp!("5633188684813992041108018302465969182775674437999819901347"), MontFp!("3131252255813924217180094783260820201843398706054428847934"))];
+}
+pub type Q6f17 = Fp6<CQ6f17>;
+pub struct CQ2f23;
+impl Fp2Config for CQ2f23 {
+    type Fp = ark_secp256k1::Fr;
+    const NONRESIDUE: ark_secp256k1::Fr = MontFp!("5");
+    const FROBENIUS_COEFF_FP2_C1: &'static [ark_secp256k1::Fr] = &[MontFp!("1"), MontFp!("-1")];
+}
+pub type Q2f23 = Fp2<CQ2f23>;
+pub struct CQ2f25;
+impl Fp2Config for CQ2f25 {
+    type Fp = F128e;
+    const NONRESIDUE: F128e = MontFp!("-1");
+    const FROBENIUS_COEFF_FP2_C1: &'static [F128e] = &[MontFp!("1"), MontFp!("-1")];
+}
+pub type Q2f25 = Fp2<CQ2f25>;
+pub struct CQ2f26;
+impl Fp2Config for CQ2f26 {
+    type Fp = F256e;
+    const NONRESIDUE: F256e = MontFp!("-1");
+    const FROBENIUS_COEFF_FP2_C1: &'static [F256e] = &[MontFp!("1"), MontFp!("-1")];
+}
+pub type Q2f26 = Fp2<CQ2f26>;
+toy!(CRS15, RS15, Fp64, 1, "979486728119");
+toy!(CRS16, RS16, Fp64, 1, "31627");
+toy!(CRT30, RT30, Fp64, 1, "15727");
+toy!(CRT31, RT31, Fp64, 1, "1073263993");
+// 12: SW form of T64 over the 64-bit prime field: #E = 4 r
+sw_curve!(S12, F64, R64, MontFp!("6594532564949727552"), MontFp!("767306787390521121"), MontFp!("8854841911062261342"), MontFp!("5728687875437866288"), &[0x4], "1152921504633173867");
+// 13: curve 12 over Fp2(F64), twisted by u: #E = 4 r n2
+sw_curve!(S13, Q2f6, R64, Q2f6::new(MontFp!("118291618487242760"), MontFp!("15800980694590448384")), Q2f6::new(MontFp!("10332811394717772612"), MontFp!("14615025112997946636")), Q2f6::new(MontFp!("2999658358918742079"), MontFp!("2569429547904413070")), Q2f6::new(MontFp!("10086669668417126048"), MontFp!("18335613861039378436")), &[0xffffffff9b922380, 0x3], "982797710356822887");
+// 14: supersingular y^2 = x^3 + u^4 x over Fp2(F256e): #E = (p+1)^2 = 16 r^2, subgroup = E[r], COFACTOR_INV formal
+sw_curve!(S14, Q2f26, R256, Q2f26::new(MontFp!("112352719008411388368218752515099994529058187004458022263120467823481862182650"), MontFp!("46518076413068889877831571417778182606457868166727865468550423274792709081337")), Q2f26::new(MontFp!("0"), MontFp!("0")), Q2f26::new(MontFp!("104250964500557567811527549420777360661323416620734453110644088570658429666168"), MontFp!("61069431901727884911287149166668884420664229318461499153921286184138942741743")), Q2f26::new(MontFp!("40826863240601168905100508985041944181076138005000503473137350270900373058080"), MontFp!("80030721872134776938994265657520746691694786334036883120081337384726766265976")), &[0xfffffffffffdaa50, 0xffffffffffffffff, 0xffffffffffffffff, 0xffffffffffffffff, 0x3], "1");
+// 15: supersingular y^2 = x^3 + u^4 x over Fp2(F63): #E = (p+1)^2, p+1 = 2*2*2*1177067*979486728119, subgroup = E[r]
+sw_curve!(S15, Q2f5, RS15, Q2f5::new(MontFp!("4200343962582694632"), MontFp!("6820854830109028325")), Q2f5::new(MontFp!("0"), MontFp!("0")), Q2f5::new(MontFp!("30017665123178985"), MontFp!("7709646272809653112")), Q2f5::new(MontFp!("5039081629836621501"), MontFp!("5670576075002188596")), &[0xfffffffff2878fc0, 0x47d7ab], "1");
+// 16: generic curve over Fp2(F_251): #E = 63254 = 2*31627 (BSGS, re-counted by enumeration)
+sw_curve!(S16, Q2f0, RS16, Q2f0::new(MontFp!("217"), MontFp!("200")), Q2f0::new(MontFp!("192"), MontFp!("75")), Q2f0::new(MontFp!("79"), MontFp!("21")), Q2f0::new(MontFp!("123"), MontFp!("152")), &[0x2], "15814");
+// 17: pallas over Fp2(pallas Fq), twisted by u: y^2 = x^3 + 5 u^6, #E = r n2
+sw_curve!(S17, Q2f15, ark_pallas::Fr, Q2f15::new(MontFp!("0"), MontFp!("0")), Q2f15::new(MontFp!("5789471714244453242666084193083132502131506042058568940266726367145216012675"), MontFp!("16223924570967883207905225696566457036918427045838581433868373584551116996985")), Q2f15::new(MontFp!("19060687767427221682969534071949639258128307553171889008585245031289309053360"), MontFp!("28389317585174057437405389148207837711678578679811627104968138026107860680764")), Q2f15::new(MontFp!("28343455738156744130799969843781103717018283305686279161934191618570072890840"), MontFp!("5412714928069958187206710072481820100310690583725545909894460121016177476798")), &[0xa61376b900000003, 0x224698fc09054959, 0x0, 0x4000000000000000], "2113149854652541481574186457838098831844657241456137385471197706491174964772");
+// 30: complete TE curve over Fp2(F8): #E = 62908 = 4 r
+te_curve_x!(T30x, Q2f0, RT30, Q2f0::new(MontFp!("148"), MontFp!("214")), Q2f0::new(MontFp!("91"), MontFp!("32")), Q2f0::new(MontFp!("214"), MontFp!("119")), Q2f0::new(MontFp!("138"), MontFp!("115")), &[0x4], "3932", Q2f0::new(MontFp!("8"), MontFp!("124")), Q2f0::new(MontFp!("195"), MontFp!("170")));
+// 31: complete TE curve over Fp2(F16): #E = 4293055972 = 4 r
+te_curve_x!(T31x, Q2f2, RT31, Q2f2::new(MontFp!("39242"), MontFp!("13872")), Q2f2::new(MontFp!("45403"), MontFp!("50668")), Q2f2::new(MontFp!("7441"), MontFp!("36426")), Q2f2::new(MontFp!("56466"), MontFp!("19080")), &[0x4], "804947995", Q2f2::new(MontFp!("23736"), MontFp!("47326")), Q2f2::new(MontFp!("28406"), MontFp!("40417")));
+// 32: complete TE curve over Fp2(F256e), generic a, d; order unknown: ScalarField / COFACTOR formal
+te_curve_x!(T32x, Q2f26, R256, Q2f26::new(MontFp!("85075378295828268756617753011799253075099281936794374884316479243019846503022"), MontFp!("90345077531669108185465591064262568919444963886649291013851481013045688725490")), Q2f26::new(MontFp!("32725252011017419160028428526460506747948292586213117443305406671596404581410"), MontFp!("74666665191670300669292694087957332771233898068000113525454565935051217413503")), Q2f26::new(MontFp!("20048887643966754611938498389535024132613680147659304329761838511703467629681"), MontFp!("30438317616392520691459719416113986952994992461145562512124716716337352462385")), Q2f26::new(MontFp!("69290696774328136999812825182313252248631416468761637742060550473861526677089"), MontFp!("21445767680539573657429381154572660044308796317206654727626974941739016416408")), &[1], "1", Q2f26::new(MontFp!("13747634587404274087083167111192843644525057650019915689096753503886889926203"), MontFp!("56953558170844623649413189468120352026106208799646301511795926605968186701162")), Q2f26::new(MontFp!("66721023796206789131099663221155880218543016880702456839650163520662861036534"), MontFp!("109427908962457475659498589606803362934088050663191884558802335193071551708715")));
+// 33: T64 over Fp2(F64), twisted by s: a s^2, d s^2 (not complete over Fp2), #E = 4 r n2
+te_curve_x!(T33x, Q2f6, R64, Q2f6::new(MontFp!("7713767517319013542"), MontFp!("7640650891544792246")), Q2f6::new(MontFp!("7808843223605531958"), MontFp!("2648238855668208013")), Q2f6::new(MontFp!("16582540643452273436"), MontFp!("14118274095253418163")), Q2f6::new(MontFp!("914657001459729111"), MontFp!("0")), &[0xffffffff9b922380, 0x3], "982797710356822887", Q2f6::new(MontFp!("18404380091693933318"), MontFp!("0")), Q2f6::new(MontFp!("3745808365357727553"), MontFp!("2193828081125471128")));
+fn dispatch_ext_field(id: u64, tower: u64, op: &str, a: &[Arg]) -> Vec<Arg> {
+    match (id, tower) {
+        (0, 2) => run_field::<Q2f0>(op, a),
+        (0, 6) => run_field::<Q6f0>(op, a),
+        (1, 2) => run_field::<Q2f1>(op, a),
+        (2, 2) => run_field::<Q2f2>(op, a),
+        (2, 3) => run_field::<Q3f2>(op, a),
+        (2, 4) => run_field::<Q4f2>(op, a),
+        (2, 6) => run_field::<Q6f2>(op, a),
+        (2, 32) => run_field::<Q32f2>(op, a),
+        (5, 2) => run_field::<Q2f5>(op, a),
+        (5, 3) => run_field::<Q3f5>(op, a),
+        (6, 2) => run_field::<Q2f6>(op, a),
+        (6, 4) => run_field::<Q4f6>(op, a),
+        (6, 6) => run_field::<Q6f6>(op, a),
+        (7, 2) => run_field::<Q2f7>(op, a),
+        (7, 3) => run_field::<Q3f7>(op, a),
+        (8, 2) => run_field::<Q2f8>(op, a),
+        (8, 3) => run_field::<Q3f8>(op, a),
+        (8, 4) => run_field::<Q4f8>(op, a),
+        (8, 32) => run_field::<Q32f8>(op, a),
+        (9, 2) => run_field::<Q2f9>(op, a),
+        (9, 3) => run_field::<Q3f9>(op, a),
+        (9, 4) => run_field::<Q4f9>(op, a),
+        (10, 2) => run_field::<Q2f10>(op, a),
+        (10, 3) => run_field::<Q3f10>(op, a),
+        (10, 6) => run_field::<Q6f10>(op, a),
+        (15, 2) => run_field::<Q2f15>(op, a),
+        (16, 2) => run_field::<Q2f16>(op, a),
+        (17, 2) => run_field::<Q2f17>(op, a),
+        (17, 6) => run_field::<Q6f17>(op, a),
+        (23, 2) => run_field::<Q2f23>(op, a),
+        (25, 2) => run_field::<Q2f25>(op, a),
+        (26, 2) => run_field::<Q2f26>(op, a),
+        _ => unsupported(),
+    }
+}
+fn dispatch_ext_curve(id: u64, op: &str, a: &[Arg]) -> Vec<Arg> {
+    match id {
+        12 => run_sw::<S12>(op, a),
+        13 => run_sw::<S13>(op, a),
+        14 => run_sw::<S14>(op, a),
+        15 => run_sw::<S15>(op, a),
+        16 => run_sw::<S16>(op, a),
+        17 => run_sw::<S17>(op, a),
+        30 => run_te::<T30x>(op, a),
+        31 => run_te::<T31x>(op, a),
+        32 => run_te::<T32x>(op, a),
+        33 => run_te::<T33x>(op, a),
+        _ => unsupported(),
+    }
+}
 // ---- END generated by props/C09/mkext.py ----
 
 fn dispatch(op: &str, a: &[Arg]) -> Vec<Arg> {
